@@ -53,7 +53,7 @@ var tables = map[string]struct {
 		"Value", "NewBool", "NewString", "NewUint32", "NewInt32", "NewInt64", "NewUint64"), strict: true},
 	"time": {shim: "vtime", idents: set("Sleep", "AfterFunc", "NewTimer", "After", "NewTicker", "Timer", "Ticker", "Now", "Since", "Until"),
 		strict: false, allow: nil},
-	"math/rand": {shim: "vrand", idents: set("NewSource", "Intn", "Int", "Int31", "Int31n", "Int63", "Int63n", "Uint32", "Uint64", "Float32", "Float64", "Perm", "Shuffle", "Seed"), strict: false},
+	"math/rand":         {shim: "vrand", idents: set("NewSource", "Intn", "Int", "Int31", "Int31n", "Int63", "Int63n", "Uint32", "Uint64", "Float32", "Float64", "Perm", "Shuffle", "Seed"), strict: false},
 	"mosn.io/pkg/utils": {shim: "vutils", idents: set("NewTimer", "Timer", "GoWithRecover"), strict: false},
 }
 
@@ -420,6 +420,21 @@ func rewriteFile(path string, mapFuncs []string, nochan bool) (bool, []byte, err
 	return true, buf.Bytes(), nil
 }
 
+// hasCall reports whether e contains a call expression outside function literals.
+func hasCall(e ast.Expr) bool {
+	found := false
+	ast.Inspect(e, func(n ast.Node) bool {
+		switch n.(type) {
+		case *ast.FuncLit:
+			return false
+		case *ast.CallExpr:
+			found = true
+		}
+		return !found
+	})
+	return found
+}
+
 func vrtCall(name string, args ...ast.Expr) *ast.CallExpr {
 	return &ast.CallExpr{Fun: &ast.SelectorExpr{X: ast.NewIdent("vrt"), Sel: ast.NewIdent(name)}, Args: args}
 }
@@ -505,6 +520,21 @@ func (r *rw) rewriteList(list []ast.Stmt) []ast.Stmt {
 				r.skip[s] = true
 				r.needVrt = true
 				r.changed = true
+				// a send evaluates its value BEFORE the communication begins: a value
+				// expression that contains a call (it may block or hit scheduling points)
+				// is hoisted in front of BeforeSend
+				if ss, ok := s.(*ast.SendStmt); ok && hasCall(ss.Value) {
+					r.tk++
+					v := ast.NewIdent(fmt.Sprintf("vrtV%d", r.tk))
+					pre := &ast.AssignStmt{Lhs: []ast.Expr{v}, Tok: token.DEFINE, Rhs: []ast.Expr{ss.Value}}
+					ss.Value = v
+					out = append(out, &ast.BlockStmt{List: []ast.Stmt{
+						pre,
+						&ast.AssignStmt{Lhs: []ast.Expr{tk}, Tok: token.DEFINE, Rhs: []ast.Expr{vrtCall(fn, ch)}},
+						s,
+						&ast.ExprStmt{X: vrtCall("After", tk)}}})
+					continue
+				}
 				out = append(out,
 					&ast.AssignStmt{Lhs: []ast.Expr{tk}, Tok: token.DEFINE, Rhs: []ast.Expr{vrtCall(fn, ch)}},
 					s,
@@ -601,6 +631,7 @@ func (r *rw) rewriteSelect(sel *ast.SelectStmt) ast.Stmt {
 	idx := ast.NewIdent(fmt.Sprintf("vrtI%d", r.tk))
 	var cases []ast.Expr
 	var clauses []ast.Stmt
+	var hoisted []ast.Stmt
 	for i, c := range sel.Body.List {
 		cc := c.(*ast.CommClause)
 		var body []ast.Stmt
@@ -612,6 +643,21 @@ func (r *rw) rewriteSelect(sel *ast.SelectStmt) ast.Stmt {
 			if ch == nil {
 				r.fail(cc, "unsupported select communication")
 				continue
+			}
+			if timeCall(ch) {
+				// select evaluates its channel operands once; the operand appears twice in the
+				// rewritten code (BeforeSelect and the chosen case): an operand that arms a timer
+				// (time.After(d), time.NewTimer(d).C, ...) is bound to a temporary first, otherwise
+				// the chosen case would wait on a second, fresh timer
+				r.tk++
+				tmp := ast.NewIdent(fmt.Sprintf("vrtCh%d", r.tk))
+				hoisted = append(hoisted, &ast.AssignStmt{Lhs: []ast.Expr{tmp}, Tok: token.DEFINE, Rhs: []ast.Expr{ch}})
+				if isSend {
+					cc.Comm.(*ast.SendStmt).Chan = tmp
+				} else {
+					u.X = tmp
+				}
+				ch = tmp
 			}
 			if isSend {
 				cases = append(cases, vrtCall("S", ch))
@@ -634,7 +680,26 @@ func (r *rw) rewriteSelect(sel *ast.SelectStmt) ast.Stmt {
 		Tag:  idx,
 		Body: &ast.BlockStmt{List: clauses},
 	}
-	return &ast.IfStmt{Cond: vrtCall("Active"), Body: &ast.BlockStmt{List: []ast.Stmt{sw}}, Else: &ast.BlockStmt{List: []ast.Stmt{native}}}
+	return &ast.IfStmt{Cond: vrtCall("Active"), Body: &ast.BlockStmt{List: append(hoisted, sw)}, Else: &ast.BlockStmt{List: []ast.Stmt{native}}}
+}
+
+// timeCall reports whether e contains (outside function literals) a call into package time or its shim.
+func timeCall(e ast.Expr) bool {
+	found := false
+	ast.Inspect(e, func(n ast.Node) bool {
+		switch x := n.(type) {
+		case *ast.FuncLit:
+			return false
+		case *ast.CallExpr:
+			if se, ok := x.Fun.(*ast.SelectorExpr); ok {
+				if id, ok := se.X.(*ast.Ident); ok && (id.Name == "time" || id.Name == "vtime") {
+					found = true
+				}
+			}
+		}
+		return !found
+	})
+	return found
 }
 
 // rewriteMapRanges turns `for k, v := range m {body}` into a loop over an
